@@ -130,7 +130,9 @@ def run(runobj, spec, timeout=10.0, only=None, verbose=False):
                     res["by_backend"][r.solver] = res["by_backend"].get(r.solver, 0) + 1
                     if len(res["samples"]) < 6:
                         res["samples"].append({"obligation": o.name, "solver": r.solver, "s": round(r.time, 3), "what": o.detail[:120]})
-                elif r.status == "sat":
+                elif r.status == "sat" or (o.kind == "frame" and o.goal == "false" and r.status in ("unknown", "anomaly")):
+                    # a frame obligation whose goal is literally false is a *static* violation (the written object is
+                    # syntactically non-fresh and outside `modifies`); only a refuted (dead) path discharges it
                     handle_failed(runobj, eng, c, o, res, keep, timeout, rep)
                 else:
                     res["undecided"].append({"obligation": o.name, "status": r.status, "what": o.detail[:160],
